@@ -279,6 +279,13 @@ func (in *Interp) pkgInit(path string) bool {
 			return true
 		}
 	}
+	for _, e := range in.Cfg.Execute {
+		// "execute": ["init:<pkg>"]: run that foreign package's initialiser for
+		// real (small lookup tables such as httpguts.isTokenTable)
+		if e == "init:"+path {
+			return true
+		}
+	}
 	return stdInit[path]
 }
 
